@@ -111,15 +111,18 @@ def register(R):
                    returns=lambda c, st, fn=fn: c.engine.opaque_pred(c.a_fileobj, 'is_' + fn))
 
     # ------------------------------------------------------------------ user-supplied source stream
-    # A-FILE with full_reads: read(n) returns exactly min(n, remaining) bytes (read() all remaining) of
-    # the ghost content `src`, advancing the position; tell/seek as documented.
+    # A-FILE: read() returns all remaining bytes of the ghost content `src`; read(n), n > 0, returns between 1 and
+    # min(n, remaining) bytes (0 only at EOF) -- raw streams (pipes, sockets, unbuffered files) legally return short
+    # reads -- and exactly min(n, remaining) when the per-stream ghost flag `full_reads` holds (buffered streams).
+    # Byte-exactness (C01) is proved without the flag; the clauses about part sizes / the multipart decision for
+    # streams of unknown length (C14, C11) are stated under it.  tell/seek as documented.
     def stream(st, recv):
         key = ('stream', recv.label)
         if key not in st.ghost:
             pos, ln = z3.Int(fresh_name('src_pos')), z3.Int(fresh_name('src_len'))
             st.assume(pos >= 0)
             st.assume(ln >= pos)
-            st.ghost[key] = {'pos': pos, 'len': ln, 'pos0': pos}
+            st.ghost[key] = {'pos': pos, 'len': ln, 'pos0': pos, 'full_reads': z3.Bool(fresh_name('full_reads'))}
         else:
             st.ghost[key] = dict(st.ghost[key])
         return st.ghost[key]
@@ -130,12 +133,17 @@ def register(R):
         rem = g['len'] - g['pos']
         if amount is None:
             n = rem
-        elif isinstance(amount, Opt):
-            a = to_int_term(amount.val)
-            n = z3.If(z3.Or(amount.is_none, a < 0), rem, z3.If(a < rem, a, rem))
         else:
-            a = to_int_term(amount)
-            n = z3.If(a < 0, rem, z3.If(a < rem, a, rem))
+            if isinstance(amount, Opt):
+                a = to_int_term(amount.val)
+                whole = z3.Or(amount.is_none, a < 0)
+            else:
+                a = to_int_term(amount)
+                whole = a < 0
+            full = z3.If(whole, rem, z3.If(a < rem, a, rem))
+            n = z3.Int(fresh_name('src_nread'))
+            st.assume(z3.And(n >= 0, n <= full, z3.Implies(full > 0, n > 0),
+                             z3.Implies(z3.Or(whole, g['full_reads']), n == full)))
         from pyvc.values import BytesV
         data = BytesV('src', g['pos'], z3.simplify(g['pos'] + n))
         g['pos'] = z3.simplify(g['pos'] + n)
@@ -249,8 +257,16 @@ def register(R):
                 size_term = z3.If(known, optval(size), total) if total is not None else optval(size)
             else:
                 size_term = optval(size)
+            # (for a stream of unknown length the decision rests on one probing read: stated for streams giving full reads)
+            need_full = g['full_reads'] if (cls == 'UploadNonSeekableInputManager' and g is not None) else B(True)
             out['multipart_iff_size_at_least_threshold'] = (
-                (size_term >= thr) if multi else (size_term < thr), ['C14'])
+                z3.Implies(need_full, (size_term >= thr) if multi else (size_term < thr)), ['C14'])
+            if cls == 'UploadSeekableInputManager' and g is not None:
+                # C01: a size the library discovers itself is the stream from its position at call time to EOF, and
+                # discovering it leaves the stream where it was
+                was_unknown = is_none(c.old.f(c.old.f(c.a_transfer_future, '_meta'), '_size'))
+                out['discovered_size_is_position_to_eof_and_position_restored'] = (
+                    z3.Implies(was_unknown, z3.And(optval(size) == g['len'] - g['pos0'], g['pos'] == g['pos0'])), ['C01'])
             if cls == 'UploadNonSeekableInputManager':
                 d = c.new.obj(mgr).fields['_initial_data']
                 out['probe_buffer_at_most_threshold_bytes'] = (
@@ -308,7 +324,40 @@ def register(R):
             out['bucket_and_key_are_the_users'] = (B(
                 mk.get('bucket') is c.old.f(_cargs(c), 'bucket') and mk.get('key') is c.old.f(_cargs(c), 'key')
                 and mk.get('client') is c.a_client), ['C01', 'C15'])
+            # ---- C01: the single request's body is exactly the source: the file from 0, the seekable stream from its
+            # current position, or (non-seekable) the bytes from the position at call time up to EOF
+            body = mk.get('fileobj')
+            st1 = c.new.st
+            bh = st1.obj(body) if isinstance(body, Ref) and st1.obj(body).kind == 'obj' else None
+            okb = bh is not None and bh.cls.name == 'ReadFileChunk'
+            out['body_is_a_window_reader'] = (B(okb), ['C01'])
+            if okb:
+                start, size = to_int_term(bh.fields['_start_byte']), to_int_term(bh.fields['_size'])
+                total = size_val(st1, c.a_transfer_future)
+                fo = fo_of(st1, c.a_transfer_future)
+                rdr = reader_of(st1, tr, bh.fields['_fileobj'])
+                inner_v = rdr.fields['_fileobj'] if rdr is not None else None
+                inner = st1.obj(inner_v) if isinstance(inner_v, Ref) else None
+                g = st1.ghost.get(('stream', fo.label))
+                if mgr_cls == 'UploadFilenameInputManager':
+                    out['body_window_is_the_whole_file'] = (z3.And(start == 0, size == total, B(
+                        inner is not None and inner.kind == 'obj' and inner.cls.name == 'DeferredOpenFile' and inner.fields['_filename'] is fo)), ['C01'])
+                elif mgr_cls == 'UploadSeekableInputManager':
+                    out['body_window_is_the_stream_from_its_current_position'] = (z3.And(
+                        B(rdr is not None and inner_v is fo and g is not None), start == g['pos'] if g is not None else B(False),
+                        size == total), ['C01'])
+                else:
+                    okm = inner is not None and inner.kind == 'bytesio' and g is not None and not isinstance(inner.meta['data'], bytes)
+                    out['body_is_an_in_memory_buffer'] = (B(okm), ['C01', 'C11'])
+                    if okm:
+                        d = inner.meta['data']
+                        out['buffer_is_the_stream_from_its_position_at_call_time_to_eof'] = (z3.And(
+                            B(d.base == 'src'), to_int_term(d.lo) == g['pos0'], to_int_term(d.hi) == g['len'], g['pos'] == g['len']), ['C01'])
+                        out['window_covers_the_whole_buffer'] = (z3.And(start == 0, size == to_int_term(d.hi) - to_int_term(d.lo)), ['C01'])
         return out
+
+    def zmin2(a, b):
+        return z3.If(a < b, a, b)
 
     def _cargs(c):
         return c.old.f(c.old.f(c.a_transfer_future, '_meta'), '_call_args')
@@ -321,6 +370,9 @@ def register(R):
         if h.cls.name == 'UploadNonSeekableInputManager':
             fo = st.obj(st.obj(st.obj(args['transfer_future']).fields['_meta']).fields['_call_args']).fields['fileobj']
             g = R.stream_state(st, fo)
+            # the probe of requires_multipart_upload may already have consumed a prefix of the stream
+            g['pos'] = z3.Int(fresh_name('src_pos_now'))
+            st.assume(z3.And(g['pos'] >= g['pos0'], g['pos'] <= g['len']))
             d = h.fields['_initial_data']
             st.assume(to_int_term(d.lo) == g['pos0'])
             st.assume(to_int_term(d.hi) == g['pos'])
